@@ -454,24 +454,35 @@ Proof.
   - apply a_tomb_add_registration.
 Qed.
 
+Lemma is_match_topic_exact t k : is_star t = false -> is_match CTopic t [] k = reg_eqb k (topic_key t).
+Proof.
+  intros Hs. rewrite is_match_exact by (unfold need_filter; rewrite Hs; reflexivity).
+  fold (topic_key t). apply reg_eqb_sym.
+Qed.
+
 Lemma refine_delete_topic s q : req (abs (fst (h_delete_topic s q))) (g_delete_topic (abs s) q).
 Proof.
   unfold h_delete_topic, g_delete_topic. destruct q as [|[t|] c n]; cbn [fst]; try apply req_refl.
+  destruct (is_valid_name t) eqn:V; cbn [negb fst]; [|apply req_refl].
+  pose proof (valid_not_star _ V) as Hs.
   repeat split; cbn; intros.
   - rewrite !has_key_remove_all, !find_registrations_mem, has_key_remove_all, find_registrations_mem.
-    destruct (has_key k (db s)), (is_match CChannel t star k), (is_match CTopic t [] k); reflexivity.
+    rewrite (is_match_topic_exact t k Hs).
+    destruct (has_key k (db s)), (is_match CChannel t star k), (reg_eqb k (topic_key t)); reflexivity.
   - rewrite !a_prod_remove_all, !find_registrations_mem, has_key_remove_all, find_registrations_mem.
+    rewrite (is_match_topic_exact t k Hs).
     destruct (a_prod (db s) k p) eqn:A.
     + assert (has_key k (db s) = true) as ->.
       { destruct (has_key k (db s)) eqn:E; [reflexivity|]. rewrite a_prod_has_key in A by assumption. discriminate. }
-      destruct (is_match CChannel t star k), (is_match CTopic t [] k); reflexivity.
+      destruct (is_match CChannel t star k), (reg_eqb k (topic_key t)); reflexivity.
     + reflexivity.
   - rewrite !a_tomb_remove_all, !find_registrations_mem, has_key_remove_all, find_registrations_mem.
     rewrite is_match_chan_topic. cbn [andb negb]. rewrite andb_true_r.
+    rewrite (is_match_topic_exact t _ Hs), topic_key_eqb.
     destruct (has_key (topic_key t0) (db s)) eqn:E.
-    + rewrite andb_true_r. destruct (is_match CTopic t [] (topic_key t0)); reflexivity.
+    + rewrite andb_true_r. destruct (bytes_eqb t0 t); reflexivity.
     + rewrite andb_false_r. rewrite a_tomb_has_key by assumption.
-      destruct (is_match CTopic t [] (topic_key t0)); reflexivity.
+      destruct (bytes_eqb t0 t); reflexivity.
 Qed.
 
 Lemma refine_create_channel s q : req (abs (fst (h_create_channel s q))) (g_create_channel (abs s) q).
@@ -570,7 +581,7 @@ Qed.
 
 (* the database after a tombstone request for a topic that is not the wildcard *)
 Lemma tombstone_db s t node :
-  is_star t = false ->
+  is_valid_name t = true ->
   forall k,
   get k (db (fst (h_tombstone s (QArgs (Some t) None (Some node))))) =
   if reg_eqb (topic_key t) k
@@ -578,7 +589,8 @@ Lemma tombstone_db s t node :
                   (get k (db s))
   else get k (db s).
 Proof.
-  intros Hs k. unfold h_tombstone. cbn [fst set_db db]. unfold find_producers_k, need_filter.
+  intros V k. pose proof (valid_not_star _ V) as Hs. unfold h_tombstone. rewrite V. cbn [negb fst set_db db].
+  unfold find_producers_k, need_filter.
   rewrite Hs, is_star_nil. cbn [orb]. fold (topic_key t).
   destruct (get (topic_key t) (db s)) as [ps|] eqn:G.
   - rewrite (filter_map_pair (topic_key t) (fun pr => node_matches s node (p_id pr))).
@@ -590,17 +602,21 @@ Proof.
   - cbn. destruct (reg_eqb_spec (topic_key t) k) as [<-|]; [rewrite G|]; reflexivity.
 Qed.
 
-Lemma refine_tombstone s q :
-  op_det (HTombstone q) = true -> req (abs (fst (h_tombstone s q))) (g_tombstone (abs s) q).
+Lemma refine_tombstone s q : req (abs (fst (h_tombstone s q))) (g_tombstone (abs s) q).
 Proof.
-  destruct q as [|[t|] c [node|]]; try (intros; apply req_refl).
-  cbn [op_det]. intros Hs. apply negb_true_iff in Hs.
+  destruct q as [|[t|] c [node|]]; try apply req_refl.
+  2:{ unfold h_tombstone, g_tombstone. destruct (negb (is_valid_name t)); apply req_refl. }
+  destruct (is_valid_name t) eqn:V.
+  2:{ unfold h_tombstone, g_tombstone. rewrite V. apply req_refl. }
+  unfold g_tombstone. rewrite V.
   assert (forall k, get k (db (fst (h_tombstone s (QArgs (Some t) c (Some node))))) =
                     get k (db (fst (h_tombstone s (QArgs (Some t) None (Some node)))))) as Hc by reflexivity.
-  pose proof (tombstone_db s t node Hs) as Hdb.
+  pose proof (tombstone_db s t node V) as Hdb.
   set (f := fun pr => if node_matches s node (p_id pr) then mkProd (p_id pr) true (now s) else pr) in Hdb.
   assert (forall pr, p_id (f pr) = p_id pr) as Hf by (intros pr; unfold f; destruct (node_matches s node (p_id pr)); reflexivity).
   repeat split; intros.
+  - unfold h_tombstone. rewrite V. reflexivity.
+  - unfold h_tombstone. rewrite V. reflexivity.
   - cbn [abs g_key g_tombstone]. unfold has_key. rewrite Hc, Hdb.
     destruct (reg_eqb (topic_key t) k), (get k (db s)); reflexivity.
   - cbn [abs g_prod g_tombstone]. unfold a_prod. rewrite Hc, Hdb.
@@ -624,9 +640,9 @@ Qed.
 
 (* ------------------------------------------------------------------ one step *)
 Theorem refine_step s o :
-  wf s -> op_det o = true -> req (abs (fst (step s o))) (g_step (abs s) o).
+  wf s -> req (abs (fst (step s o))) (g_step (abs s) o).
 Proof.
-  intros Hwf Hdet. destruct o; cbn [step g_step].
+  intros Hwf. destruct o; cbn [step g_step].
   - pose proof (refine_identify s p i) as H. destruct (tcp_identify s p i). exact H.
   - pose proof (refine_register s p t c) as H. destruct (tcp_register s p t c). exact H.
   - pose proof (refine_unregister s p t c Hwf) as H. destruct (tcp_unregister s p t c). exact H.
@@ -636,7 +652,7 @@ Proof.
   - pose proof (refine_delete_topic s q) as H. destruct (h_delete_topic s q). exact H.
   - pose proof (refine_create_channel s q) as H. destruct (h_create_channel s q). exact H.
   - pose proof (refine_delete_channel s q) as H. destruct (h_delete_channel s q). exact H.
-  - pose proof (refine_tombstone s q Hdet) as H. destruct (h_tombstone s q). exact H.
+  - pose proof (refine_tombstone s q) as H. destruct (h_tombstone s q). exact H.
   - apply req_refl.
 Qed.
 
@@ -685,6 +701,7 @@ Proof.
     destruct (is_valid_name t); [|assumption].
     repeat split; cbn; intros; rewrite ?H1, ?H2, ?H3, ?H4, ?H5; reflexivity.
   - unfold g_delete_topic. destruct q as [|[t|] c n]; try assumption.
+    destruct (is_valid_name t); [|assumption].
     repeat split; cbn; intros; rewrite ?H1, ?H2, ?H3, ?H4, ?H5; reflexivity.
   - unfold g_create_channel. destruct q as [|t c n]; try assumption.
     destruct (topic_channel_args t c) as [[t' c']|]; [|assumption].
@@ -693,6 +710,7 @@ Proof.
     destruct (topic_channel_args t c) as [[t' c']|]; [|assumption].
     repeat split; cbn; intros; rewrite ?H1, ?H2, ?H3, ?H4, ?H5; reflexivity.
   - unfold g_tombstone. destruct q as [|[t|] c [node|]]; try assumption.
+    destruct (is_valid_name t); [|assumption].
     repeat split; cbn; intros; rewrite ?H1, ?H2, ?H3, ?H4, ?H5; try reflexivity.
     destruct (Hx t p node) as [-> ->]. reflexivity.
   - repeat split; cbn; intros; rewrite ?H1, ?H2, ?H3, ?H4, ?H5; reflexivity.
@@ -747,13 +765,15 @@ Proof.
   - unfold g_create_topic. destruct q as [|[t|] c n]; try assumption.
     destruct (is_valid_name t); try assumption; intros k q Hq; exact (H k q Hq).
   - unfold g_delete_topic. destruct q as [|[t|] c n]; try assumption.
+    destruct (is_valid_name t); [|assumption].
     intros k q Hq. cbn in Hq. apply andb_true_iff in Hq as [Hq _]. exact (H k q Hq).
   - unfold g_create_channel. destruct q as [|t c n]; try assumption.
     destruct (topic_channel_args t c) as [[t' c']|]; try assumption; intros k q Hq; exact (H k q Hq).
   - unfold g_delete_channel. destruct q as [|t c n]; try assumption.
     destruct (topic_channel_args t c) as [[t' c']|]; [|assumption].
     intros k q Hq. cbn in Hq. apply andb_true_iff in Hq as [Hq _]. exact (H k q Hq).
-  - unfold g_tombstone. destruct q as [|[t|] c [node|]]; try assumption; intros k q Hq; exact (H k q Hq).
+  - unfold g_tombstone. destruct q as [|[t|] c [node|]]; try assumption.
+    destruct (is_valid_name t); try assumption; intros k q Hq; exact (H k q Hq).
   - intros k q Hq. exact (H k q Hq).
 Qed.
 
@@ -779,13 +799,9 @@ Qed.
 
 Lemma wf_step s o : wf s -> wf (fst (step s o)).
 Proof.
-  intros Hwf. destruct (op_det o) eqn:D.
-  - apply (g_wf_req (g_step (abs s) o)).
-    + apply req_sym. apply refine_step; assumption.
-    + apply g_wf_step. assumption.
-  - destruct o; try discriminate. destruct q as [|[t|] c [node|]]; try discriminate.
-    cbn [step]. unfold h_tombstone. cbn [fst]. intros k q Hq. cbn in Hq.
-    rewrite a_prod_fold_tombstone in Hq. exact (Hwf k q Hq).
+  intros Hwf. apply (g_wf_req (g_step (abs s) o)).
+  - apply req_sym. apply refine_step; assumption.
+  - apply g_wf_step. assumption.
 Qed.
 
 Lemma wf_run h : forall s, wf s -> wf (run s h).
@@ -795,14 +811,13 @@ Qed.
 
 (* ------------------------------------------------------------------ every history *)
 Theorem refine_run h : forall s r,
-  wf s -> req (abs s) r -> forallb op_det h = true -> req (abs (run s h)) (g_run r h).
+  wf s -> req (abs s) r -> req (abs (run s h)) (g_run r h).
 Proof.
-  induction h as [|o h IH]; intros s r Hwf Hreq Hdet; [assumption|].
-  cbn in Hdet. apply andb_true_iff in Hdet as [Ho Hh]. cbn [run g_run fold_left].
-  apply IH; [apply wf_step; assumption| |assumption].
+  induction h as [|o h IH]; intros s r Hwf Hreq; [assumption|].
+  cbn [run g_run fold_left].
+  apply IH; [apply wf_step; assumption|].
   eapply req_trans; [apply refine_step; assumption|]. apply g_step_req. assumption.
 Qed.
 
-Corollary refine_history h :
-  forallb op_det h = true -> req (abs (run init h)) (g_run g_init h).
-Proof. intros H. apply refine_run; [apply wf_init| |assumption]. repeat split. Qed.
+Corollary refine_history h : req (abs (run init h)) (g_run g_init h).
+Proof. apply refine_run; [apply wf_init|]. repeat split. Qed.
